@@ -210,6 +210,14 @@ def make_builtins(I):
             I.raise_('TypeError', str(e))
 
     def _any(it):
+        if isinstance(it, PyIterator):
+            # consumes the iterator up to and including the first true element (the truth value decides how far: fork)
+            while it.pos < len(it._items):
+                x = it._items[it.pos]
+                it.pos += 1
+                if I.truth(x):
+                    return True
+            return False
         r = False
         for x in I.iterate(it):
             r = I.or_(r, I.symbolic_truth(x))
@@ -221,6 +229,13 @@ def make_builtins(I):
         from .models.arrays import SArr, array_all
         if isinstance(it, SArr) and not isinstance(it.length, int):
             return array_all(I, it)
+        if isinstance(it, PyIterator):
+            while it.pos < len(it._items):
+                x = it._items[it.pos]
+                it.pos += 1
+                if not I.truth(x):
+                    return False
+            return True
         r = True
         for x in I.iterate(it):
             r = I.and_(r, I.symbolic_truth(x))
